@@ -281,6 +281,20 @@ def pexpr_cases(ctx, ts):
     for _ in range(ctx.scale(1500, 100000)):
         s = " ".join(rng.choice(PX_TOKENS) for _ in range(rng.randint(1, 9)))
         srcs.append(s); asts.append(s); shapes.append("px-soup")
+    import re
+    for _ in range(ctx.scale(1500, 100000)):
+        # a valid rendering with one token deleted, replaced or inserted
+        toks = re.findall(r"[A-Za-z0-9_]+|\.\.=|\.\.|&&|\|\||==|!=|<=|>=|<<|>>|\S", px_min(px_tree(rng, rng.choice([2, 3, 4]))))
+        i = rng.randrange(len(toks))
+        r = rng.random()
+        if r < 0.35:
+            del toks[i]
+        elif r < 0.7:
+            toks[i] = rng.choice(PX_TOKENS)
+        else:
+            toks.insert(i, rng.choice(PX_TOKENS))
+        s = " ".join(toks)
+        srcs.append(s); asts.append(s); shapes.append("px-mutant")
     lines = lang_lines(ctx, srcs, op="pexpr", ast_sources=asts)
     return [Case(l, (sh,), extra={"shape": sh, "src": s, "ast_of": a}) for l, sh, s, a in zip(lines, shapes, srcs, asts)]
 
